@@ -53,11 +53,16 @@ pub struct Cfg {
     pub tti_s: Option<u64>,
     pub introspection_maintenance: bool,
     pub depth: usize,
+    /// stale-while-revalidate grace (seconds); implies a loader
+    #[serde(default)]
+    pub grace_s: Option<u64>,
+    #[serde(default)]
+    pub loader: bool,
 }
 impl Cfg {
     fn name(&self) -> String {
         format!(
-            "cache/{}/{}/cap{}/sh{}/ttl{}/tti{}{}/d{}",
+            "cache/{}/{}/cap{}/sh{}/ttl{}/tti{}{}{}/d{}",
             self.family,
             self.policy,
             self.capacity.map(|c| c.to_string()).unwrap_or("inf".into()),
@@ -65,6 +70,7 @@ impl Cfg {
             self.ttl_s.map(|c| c.to_string()).unwrap_or("-".into()),
             self.tti_s.map(|c| c.to_string()).unwrap_or("-".into()),
             if self.introspection_maintenance { "/im" } else { "" },
+            self.grace_s.map(|g| format!("/grace{}", g)).unwrap_or_default(),
             self.depth
         )
     }
@@ -83,6 +89,7 @@ pub enum Act {
     EntryGet(K),
     EntryOrInsert(K, u64),
     Compute(K),
+    FetchWith(K),
     Iter(usize),
     IterSnapshot,
     SnapshotRestore,
@@ -129,6 +136,7 @@ pub struct Fail {
 
 struct World {
     cfg: Cfg,
+    loads: Arc<Mutex<Vec<(K, V)>>>,
     cache: C,
     notes: Arc<Mutex<Vec<(K, V, EvictionReason)>>>,
     now: u64,
@@ -144,7 +152,12 @@ struct World {
     stats_rolls: u64,
 }
 
+static NEXT_LOADED: std::sync::atomic::AtomicU64 = std::sync::atomic::AtomicU64::new(1_000_000);
+
 fn build_cache(cfg: &Cfg, notes: &Arc<Mutex<Vec<(K, V, EvictionReason)>>>, snapshot: Option<fibre_cache::snapshot::CacheSnapshot<K, V>>) -> C {
+    build_cache_l(cfg, notes, snapshot, &Arc::new(Mutex::new(Vec::new())))
+}
+fn build_cache_l(cfg: &Cfg, notes: &Arc<Mutex<Vec<(K, V, EvictionReason)>>>, snapshot: Option<fibre_cache::snapshot::CacheSnapshot<K, V>>, loads: &Arc<Mutex<Vec<(K, V)>>>) -> C {
     let mut b: CacheBuilder<K, V, IdBuild> = CacheBuilder::<K, V, IdBuild>::new().hasher(IdBuild).shards(cfg.shards).maintenance_on_introspection(cfg.introspection_maintenance);
     b = match cfg.capacity {
         Some(c) => b.capacity(c),
@@ -157,6 +170,17 @@ fn build_cache(cfg: &Cfg, notes: &Arc<Mutex<Vec<(K, V, EvictionReason)>>>, snaps
         b = b.time_to_idle(Duration::from_secs(t));
     }
     b = b.eviction_listener(Recorder(notes.clone()));
+    if let Some(g) = cfg.grace_s {
+        b = b.stale_while_revalidate(Duration::from_secs(g));
+    }
+    if cfg.loader || cfg.grace_s.is_some() {
+        let loads = loads.clone();
+        b = b.loader(move |k: K| {
+            let v = NEXT_LOADED.fetch_add(1, std::sync::atomic::Ordering::SeqCst);
+            loads.lock().unwrap().push((k, v));
+            (v, 1)
+        });
+    }
     let cap = cfg.capacity.unwrap_or(u64::MAX);
     let shards = cfg.shards as u64;
     let per_shard = if cap == u64::MAX { u64::MAX } else { (cap + shards - 1) / shards };
@@ -192,8 +216,10 @@ impl World {
         hook::set_clock_nanos(T0);
         hook::set_maintenance_coin(Some(false));
         let notes = Arc::new(Mutex::new(Vec::new()));
-        let cache = build_cache(cfg, &notes, None);
-        World { cfg: cfg.clone(), cache, notes, now: T0, latest: BTreeMap::new(), ids: BTreeMap::new(), dead: BTreeSet::new(), notified: BTreeSet::new(), next_id: 1, log: vec![], stats_rolls: 0 }
+        let loads = Arc::new(Mutex::new(Vec::new()));
+        NEXT_LOADED.store(1_000_000, std::sync::atomic::Ordering::SeqCst);
+        let cache = build_cache_l(cfg, &notes, None, &loads);
+        World { cfg: cfg.clone(), loads, cache, notes, now: T0, latest: BTreeMap::new(), ids: BTreeMap::new(), dead: BTreeSet::new(), notified: BTreeSet::new(), next_id: 1, log: vec![], stats_rolls: 0 }
     }
     fn ttl(&self) -> Option<u64> {
         self.cfg.ttl_s.map(|s| s * SEC)
@@ -241,6 +267,7 @@ impl World {
             Act::EntryGet(_) => "entry.occupied.get",
             Act::EntryOrInsert(..) => "entry.or_insert",
             Act::Compute(_) => "compute",
+            Act::FetchWith(_) => "fetch_with",
             Act::Iter(_) => "iter",
             Act::IterSnapshot => "iter_snapshot",
             Act::SnapshotRestore => "to_snapshot+build_from_snapshot",
@@ -448,6 +475,77 @@ impl World {
                     }
                 }
             }
+            Act::FetchWith(k) => {
+                let before = self.loads.lock().unwrap().len();
+                let got = *self.cache.fetch_with(&k);
+                let grace = self.cfg.grace_s.map(|g| g * SEC);
+                let ent = self.latest.get(&k).cloned();
+                let loaded_now: Vec<(K, V)> = self.loads.lock().unwrap()[before..].to_vec();
+                if let Some((lk, lv)) = loaded_now.iter().find(|(_, v)| *v == got) {
+                    // miss path: the loader ran for this call and its value was returned
+                    if *lk != k {
+                        return Err(fail("C11", "other_keys_value", op, format!("fetch_with({}) returned the value loaded for key {}", k, lk)));
+                    }
+                    if let Some(e) = &ent {
+                        if self.cfg.capacity.is_none() && self.certainly_live(e) {
+                            return Err(fail("C12", "live_entry_missing", op, format!("fetch_with({}) ran the loader at t={}ns although #{} is live and the cache is unbounded", k, self.now, e.id)));
+                        }
+                        self.dead.insert(e.id);
+                    }
+                    self.ids.insert(*lv, (k, 1));
+                    let expires_at = self.ttl().map(|t| self.now + t);
+                    self.latest.insert(k, MEntry { id: *lv, cost: 1, expires_at, la_min: self.now, la_max: self.now });
+                    return Ok(Out::Val(Some(got)));
+                }
+                // hit path: fresh, or stale inside the grace window
+                let Some(e) = ent else {
+                    return Err(fail("C11", "stale_or_removed_value", op, format!("fetch_with({}) returned #{} but the key has no live value and the loader did not run for this call", k, got)));
+                };
+                if e.id != got {
+                    return self.check_read(k, Some(got), op, Some(true)).map(|_| Out::Val(Some(got)));
+                }
+                let ttl_expired = e.expires_at.map(|x| self.now >= x).unwrap_or(false);
+                let tti_expired = self.tti().map(|t| self.now >= e.la_max + t).unwrap_or(false);
+                if tti_expired {
+                    return Err(fail("C12", "expired_entry_served", op, format!("fetch_with({}) returned #{} at t={}ns although it is idle-expired (last refreshing access ≤ {})", k, got, self.now, e.la_max)));
+                }
+                if !ttl_expired {
+                    self.check_read(k, Some(got), op, Some(true))?;
+                    return Ok(Out::Val(Some(got)));
+                }
+                let x = e.expires_at.unwrap();
+                match grace {
+                    Some(g) if self.now < x + g => {
+                        // stale hit: a refresh must have been triggered; wait for it (background thread)
+                        let t0 = Instant::now();
+                        let refreshed = loop {
+                            let l = self.loads.lock().unwrap()[before..].iter().find(|(lk, _)| *lk == k).cloned();
+                            if let Some((_, lv)) = l {
+                                if hook::dump(&self.cache).iter().any(|d| d.0 == k && *d.1 == lv) {
+                                    break Some(lv);
+                                }
+                            }
+                            if t0.elapsed() > Duration::from_millis(1500) {
+                                break None;
+                            }
+                            std::thread::sleep(Duration::from_micros(200));
+                        };
+                        match refreshed {
+                            Some(lv) => {
+                                // let the loader thread finish its bookkeeping (pending marker, completion)
+                                std::thread::sleep(Duration::from_micros(300));
+                                self.dead.insert(e.id);
+                                self.ids.insert(lv, (k, 1));
+                                let expires_at = self.ttl().map(|t| self.now + t);
+                                self.latest.insert(k, MEntry { id: lv, cost: 1, expires_at, la_min: self.now, la_max: self.now });
+                                Ok(Out::Val(Some(got)))
+                            }
+                            None => Err(fail("C12", "stale_hit_without_refresh", op, format!("fetch_with({}) served the stale #{} inside the grace window but no refresh replaced it within 1.5 s", k, got))),
+                        }
+                    }
+                    _ => Err(fail("C12", "expired_entry_served", op, format!("fetch_with({}) returned #{} at t={}ns although it expired at {}ns (grace {:?})", k, got, self.now, x, grace))),
+                }
+            }
             Act::Iter(batch) => {
                 let items: Vec<(K, V)> = self.cache.iter_with_batch_size(batch).map(|(k, v)| (k, *v)).collect();
                 self.check_enumeration(&items, op)?;
@@ -470,7 +568,7 @@ impl World {
                 let bytes = bincode::serialize(&snap).map_err(|e| fail("C17", "snapshot_serialize", op, format!("{}", e)))?;
                 let snap2: fibre_cache::snapshot::CacheSnapshot<K, V> = bincode::deserialize(&bytes).map_err(|e| fail("C17", "snapshot_deserialize", op, format!("{}", e)))?;
                 let old_dump: BTreeMap<K, (V, u64, u64)> = hook::dump(&self.cache).into_iter().map(|(k, v, c, x, _)| (k, (*v, c, x))).collect();
-                let restored = build_cache(&self.cfg, &self.notes, Some(snap2));
+                let restored = build_cache_l(&self.cfg, &self.notes, Some(snap2), &self.loads);
                 let new_dump: BTreeMap<K, (V, u64, u64)> = hook::dump(&restored).into_iter().map(|(k, v, c, x, _)| (k, (*v, c, x))).collect();
                 for (k, v) in &items {
                     let Some((nv, nc, nx)) = new_dump.get(k) else {
@@ -631,6 +729,7 @@ impl World {
                 Act::Remove(rk) | Act::Invalidate(rk) => rk == *k,
                 Act::Clear => true,
                 Act::Compute(ck) => ck == *k,
+                Act::FetchWith(fk) => fk == *k,
                 Act::EntryOrInsert(ek, _) => ek == *k,
                 _ => false,
             };
@@ -679,6 +778,7 @@ fn alphabet(cfg: &Cfg) -> Vec<Act> {
         "cost2" => vec![Act::Insert(0, 1), Act::Insert(1, 1), Act::Insert(2, 1), Act::Insert(3, 1), Act::Remove(0), Act::Clear, Act::Maint, Act::EntryOrInsert(1, 1), Act::SnapshotRestore, Act::Get(1)],
         "ttl" => vec![Act::Insert(0, 1), Act::InsertTtl(0, 1, 5 * SEC), Act::Insert(1, 1), Act::Fetch(0), Act::Get(0), Act::Peek(0), Act::EntryGet(0), Act::Iter(1), Act::Maint, Act::Adv(4 * SEC), Act::Adv(SEC - 1), Act::Adv(1), Act::Adv(5 * SEC)],
         "ttlshort" => vec![Act::Insert(0, 1), Act::InsertTtl(1, 1, SEC), Act::Fetch(0), Act::Peek(1), Act::Maint, Act::Adv(SEC), Act::Adv(SEC - 1), Act::Adv(1), Act::Remove(0)],
+        "swr" => vec![Act::Insert(0, 1), Act::FetchWith(0), Act::Fetch(0), Act::Remove(0), Act::Maint, Act::Adv(9 * SEC), Act::Adv(SEC - 1), Act::Adv(1), Act::Adv(5 * SEC)],
         "tti" => vec![Act::Insert(0, 1), Act::Insert(1, 1), Act::Fetch(0), Act::Get(0), Act::Peek(0), Act::EntryGet(0), Act::IterSnapshot, Act::Maint, Act::Adv(5 * SEC), Act::Adv(5 * SEC - 1), Act::Adv(1)],
         "read" => vec![Act::Insert(0, 1), Act::Insert(1, 1), Act::Remove(0), Act::Invalidate(1), Act::Clear, Act::Get(0), Act::Fetch(1), Act::Peek(0), Act::EntryGet(0), Act::EntryOrInsert(0, 1), Act::Compute(0), Act::Iter(2), Act::Maint],
         "iter" => vec![Act::Insert(0, 1), Act::Insert(1, 1), Act::Insert(2, 1), Act::Insert(3, 1), Act::Insert(4, 1), Act::Remove(1), Act::Iter(1), Act::Iter(2), Act::Iter(3), Act::IterSnapshot, Act::SnapshotRestore, Act::Adv(6 * SEC), Act::InsertTtl(2, 1, 5 * SEC)],
@@ -727,6 +827,7 @@ fn witness(hist: &[Act]) -> String {
             Act::EntryGet(k) => format!("E{}", k),
             Act::EntryOrInsert(k, c) => format!("O{}:{}", k, c),
             Act::Compute(k) => format!("U{}", k),
+            Act::FetchWith(k) => format!("L{}", k),
             Act::Iter(b) => format!("It{}", b),
             Act::IterSnapshot => "Is".into(),
             Act::SnapshotRestore => "S".into(),
@@ -864,7 +965,7 @@ fn configs(tier: &str) -> Vec<Cfg> {
     let quick = tier == "quick";
     let policies_all = ["default", "lru", "fifo", "sieve", "clock", "slru", "arc", "random"];
     let d = |q: usize, t: usize| if quick { q } else { t };
-    let base = Cfg { family: String::new(), policy: "lru".into(), capacity: Some(2), shards: 1, ttl_s: None, tti_s: None, introspection_maintenance: false, depth: 4 };
+    let base = Cfg { family: String::new(), policy: "lru".into(), capacity: Some(2), shards: 1, ttl_s: None, tti_s: None, introspection_maintenance: false, depth: 4, grace_s: None, loader: false };
     // cost accounting / capacity / listener, every policy
     for p in policies_all {
         for (cap, shards) in [(2u64, 1usize), (3, 2)] {
@@ -884,6 +985,12 @@ fn configs(tier: &str) -> Vec<Cfg> {
     }
     if !quick {
         v.push(Cfg { family: "ttl".into(), policy: "default".into(), capacity: None, ttl_s: Some(10), tti_s: Some(10), depth: 5, ..base.clone() });
+    }
+    // loader paths: miss, hit, stale-while-revalidate window (ttl 10 s, grace 5 s), plain loader without grace, loader + tti
+    v.push(Cfg { family: "swr".into(), policy: "default".into(), capacity: None, ttl_s: Some(10), grace_s: Some(5), loader: true, depth: d(4, 5), ..base.clone() });
+    v.push(Cfg { family: "swr".into(), policy: "default".into(), capacity: None, ttl_s: Some(10), loader: true, depth: d(4, 5), ..base.clone() });
+    if !quick {
+        v.push(Cfg { family: "swr".into(), policy: "default".into(), capacity: None, ttl_s: Some(10), tti_s: Some(12), grace_s: Some(5), loader: true, depth: 5, ..base.clone() });
     }
     // short TTL: the timer wheel (1 s ticks) is reachable within the depth
     v.push(Cfg { family: "ttlshort".into(), policy: "default".into(), capacity: None, ttl_s: Some(2), depth: d(5, 6), ..base.clone() });
